@@ -69,7 +69,7 @@ typedef struct {
 struct caption {
 	pthread_mutex_t		mutex;
 
-	uint8_t			last[2];		/* field 1, cc command repetition */
+	uint8_t			last[2][2];		/* field 1 and 2, cc command repetition */
 
 	int			curr_chan;
 	vbi_char		transp_space[2];	/* caption, text mode */
